@@ -1,12 +1,19 @@
 from core import Unit as U
 HASH = ["secp256k1_sha256_write", "secp256k1_sha256_finalize"]
+# EVERY callee that is not the real body in these units (audit2 #11): oracles as call-site stubs (assumed_rangeproof.h part B),
+# the hash_log.h stream contracts transliterated as stubs, the byte readers (real function at the watched position only),
+# the gej_set_ge frame stub, and pub_expand (DFCC contract; its body is only checked by BOUNDED units so far)
 VORACLES = ["secp256k1_ge_set_xquad", "secp256k1_fe_impl_is_square_var", "secp256k1_gej_add_ge_var",
-            "secp256k1_pedersen_ecmult_small", "secp256k1_borromean_verify"]   # call-site stubs (assumed_rangeproof.h part B)
+            "secp256k1_pedersen_ecmult_small", "secp256k1_borromean_verify",
+            "secp256k1_sha256_write", "secp256k1_sha256_finalize", "secp256k1_scalar_set_b32", "secp256k1_fe_impl_set_b32_limit",
+            "secp256k1_gej_set_ge", "secp256k1_rangeproof_pub_expand"]
 VFUNCS = ["secp256k1_rangeproof_verify_impl", "secp256k1_rangeproof_getheader_impl", "secp256k1_ge_neg", "secp256k1_gej_neg", "secp256k1_rangeproof_serialize_point"]
 VLOOPS_B = ["secp256k1_rangeproof_verify_impl.0:3", "secp256k1_rangeproof_verify_impl.1:3", "secp256k1_rangeproof_verify_impl.2:3",
             "secp256k1_rangeproof_verify_impl.3:9"]
 VLOOPS = ["secp256k1_rangeproof_verify_impl.0:33", "secp256k1_rangeproof_verify_impl.1:33", "secp256k1_rangeproof_verify_impl.2:33",
           "secp256k1_rangeproof_verify_impl.3:129"]
+BORACLES = ["secp256k1_ecmult", "secp256k1_ge_set_gej_var", "secp256k1_sha256_write", "secp256k1_sha256_finalize"]   # call-site stubs
+BFUNCS = ["secp256k1_borromean_verify", "secp256k1_borromean_hash", "secp256k1_eckey_pubkey_serialize33"]
 UNITS = [
     U("C10.leaf_scalar_set_b32", ["C10", "C07"], "harness/C10/leaf.c", "h_leaf_scalar_set_b32", enforce=["secp256k1_scalar_set_b32"],
       timeout=300, min_obl=10, note="proved leaf contract: overflow = (be256 >= n), r = be256 mod n, frame = {r, overflow}"),
@@ -31,15 +38,15 @@ UNITS = [
       closed_by="full unwinding to the code-enforced constants (32 rings, 128 ring members)",
       note="hash stream contract: every position of the binding hash, every extra_commit length <= 100000"),
     U("C10.borromean_r1", ["C10", "C07"], "harness/C10/borromean.c", "h_borromean_verify", defs=["MAXRINGS=1"],
-      assumed=["secp256k1_ecmult", "secp256k1_ge_set_gej_var"], functions=["secp256k1_borromean_verify", "secp256k1_borromean_hash", "secp256k1_eckey_pubkey_serialize33"],
-      timeout=900, min_obl=100, unwind=34, unwindset=["secp256k1_borromean_verify.0:5", "secp256k1_borromean_verify.1:2"], bounded="nrings = 1 (<= 4 ring members)",
-      note="bounded quick stand-in of C10.borromean; ring sizes 1..4"),
+      assumed=BORACLES, functions=BFUNCS, timeout=900, min_obl=100, unwind=34, unwindset=["secp256k1_borromean_verify.0:5", "secp256k1_borromean_verify.1:2"],
+      bounded="nrings = 1 (<= 4 ring members)", note="bounded quick stand-in of C10.borromean; ring sizes 1..4; calls identified by operand values / hash content"),
+    U("C10.borromean_chain_r1", ["C10"], "harness/C10/borromean.c", "h_borromean_chain", defs=["MAXRINGS=1"],
+      assumed=BORACLES, functions=BFUNCS, timeout=900, min_obl=100, unwind=34, unwindset=["secp256k1_borromean_verify.0:5", "secp256k1_borromean_verify.1:2"],
+      bounded="nrings = 1 (<= 4 ring members)", note="e part of a later challenge hash = compressed R of the previous member (value chain ecmult -> ge_set_gej_var -> hash)"),
     U("C10.borromean_r2", ["C10", "C07"], "harness/C10/borromean.c", "h_borromean_verify", defs=["MAXRINGS=2"],
-      assumed=["secp256k1_ecmult", "secp256k1_ge_set_gej_var"], functions=["secp256k1_borromean_verify", "secp256k1_borromean_hash", "secp256k1_eckey_pubkey_serialize33"],
-      timeout=900, min_obl=100, unwind=34, unwindset=["secp256k1_borromean_verify.0:5", "secp256k1_borromean_verify.1:3"], bounded="nrings <= 2 (<= 8 ring members)", tier="thorough",
-      note="bounded stand-in of C10.borromean (thorough tier: ~400 s); ring sizes 1..4"),
+      assumed=BORACLES, functions=BFUNCS, timeout=1800, min_obl=100, unwind=34, unwindset=["secp256k1_borromean_verify.0:5", "secp256k1_borromean_verify.1:3"],
+      bounded="nrings <= 2 (<= 8 ring members)", tier="thorough", note="bounded stand-in of C10.borromean (thorough tier)"),
     U("C10.borromean", ["C10", "C07"], "harness/C10/borromean.c", "h_borromean_verify",
-      assumed=["secp256k1_ecmult", "secp256k1_ge_set_gej_var"], functions=["secp256k1_borromean_verify", "secp256k1_borromean_hash", "secp256k1_eckey_pubkey_serialize33"],
-      timeout=5400, min_obl=100, unwind=34, unwindset=["secp256k1_borromean_verify.0:5", "secp256k1_borromean_verify.1:33", "h_borromean_verify.2:129"], tier="thorough", mem_gb=16,
-      closed_by="full unwinding to 32 rings x 4 members (the layouts the range-proof verifier produces)", note="NOT COMPLETED at authoring time (size)"),
+      assumed=BORACLES, functions=BFUNCS, timeout=5400, min_obl=100, unwind=34, unwindset=["secp256k1_borromean_verify.0:5", "secp256k1_borromean_verify.1:33", "h_borromean_verify.2:129"],
+      tier="thorough", mem_gb=16, closed_by="full unwinding to 32 rings x 4 members (the layouts the range-proof verifier produces)", note="NOT COMPLETED at authoring time (size)"),
 ]
